@@ -1,4 +1,4 @@
-(* s_pa.ml — stream "pa": a whole parse on the DeferredReader model (DIMACS family and solver log).
+(* s_pa.ml — stream "pa": a whole parse on the DeferredReader model (DIMACS family, solver log, AIGER).
    case:  pa <parser> <ty> <flags> <datahex> <events> <pre> <chunk> <ctor>
    trace: <items ';'-separated> => <final> | calls=<n>                                            *)
 open Model
@@ -16,6 +16,52 @@ let show_perr (e : perr) : string =
   match e with
   | ESyntax (l, c) -> Printf.sprintf "E(%s,%s)" (str_of_n l) (str_of_n c)
   | EIo e -> "IO(e" ^ str_of_n e ^ ")"
+
+let max_code (ty : string) : n =
+  match ty with
+  | "u8" -> max_code_u8 | "u16" -> max_code_u16 | "u32" -> max_code_u32
+  | "u64" -> max_code_u64 | "usize" -> max_code_usize
+  | _ -> failwith ("bad AIGER type " ^ ty)
+
+(* AIGER items, same format as run_aag / run_aig / show_aig / show_ordered_aig in harness/src/s_pa.rs *)
+let show_init (i : bool option) : string = match i with Some false -> "0" | Some true -> "1" | None -> "x"
+let sym_prefix (k : symkind) : string =
+  match k with SInput -> "i" | SOutput -> "o" | SLatch -> "l" | SBad -> "b" | SConstraint -> "c"
+             | SJustice -> "j" | SFairness -> "f"
+let show_symbol ((k, i), name) : string = Printf.sprintf "s:%s%s:%s" (sym_prefix k) (str_of_n i) (hex_of_bytes name)
+let show_aheader (h : aheader) : string =
+  Printf.sprintf "H(%s)" (String.concat "," (List.map str_of_n
+    [h.a_max_var; h.a_inputs; h.a_latches; h.a_outputs; h.a_ands; h.a_bad; h.a_constraints; h.a_justice; h.a_fairness]))
+let show_item (it : item) : string =
+  match it with
+  | IInput l -> "i:" ^ str_of_n l
+  | ILatch (s, nx, i) -> Printf.sprintf "l:%s,%s,%s" (str_of_n s) (str_of_n nx) (show_init i)
+  | IOLatch (nx, i) -> Printf.sprintf "l:%s,%s" (str_of_n nx) (show_init i)
+  | IOutput l -> "o:" ^ str_of_n l
+  | IBad l -> "b:" ^ str_of_n l
+  | IConstraint l -> "c:" ^ str_of_n l
+  | IJusticeSize k -> "jn:" ^ str_of_n k
+  | IJustice l -> "j:" ^ str_of_n l
+  | IFairness l -> "f:" ^ str_of_n l
+  | IAnd (o, a, b) -> Printf.sprintf "a:%s,%s,%s" (str_of_n o) (str_of_n a) (str_of_n b)
+  | IOAnd (a, b) -> Printf.sprintf "a:%s,%s" (str_of_n a) (str_of_n b)
+  | ISymbol (k, i, name) -> show_symbol ((k, i), name)
+  | IComment c -> "C:" ^ hex_of_bytes c
+let show_aig (binary : bool) (a : aig) : string =
+  let c l = String.concat "," (List.map str_of_n l) in
+  let opt o = match o with Some x -> str_of_n x | None -> "?" in
+  Printf.sprintf "%s(M=%s I=%s L=[%s] O=[%s] B=[%s] C=[%s] J=[%s] F=[%s] A=[%s] S=[%s] c=%s)"
+    (if binary then "OAIG" else "AIG") (str_of_n a.g_header.a_max_var)
+    (if binary then str_of_n a.g_header.a_inputs else "[" ^ c a.g_inputs ^ "]")
+    (String.concat "," (List.map (fun ((s, nx), i) ->
+       if binary then str_of_n nx ^ "/" ^ show_init i else opt s ^ "/" ^ str_of_n nx ^ "/" ^ show_init i) a.g_latches))
+    (c a.g_outputs) (c a.g_bad) (c a.g_constraints)
+    (String.concat "," (List.map (fun j -> "(" ^ c j ^ ")") a.g_justice))
+    (c a.g_fairness)
+    (String.concat "," (List.map (fun ((o, x), y) ->
+       if binary then str_of_n x ^ "&" ^ str_of_n y else opt o ^ "=" ^ str_of_n x ^ "&" ^ str_of_n y) a.g_ands))
+    (String.concat "," (List.map show_symbol a.g_symbols))
+    (match a.g_comment with Some s -> hex_of_bytes s | None -> "none")
 
 let show_final (f : final) : string = match f with FOk -> "ok" | FErr e -> show_perr e
 
@@ -37,10 +83,10 @@ let run (toks : string list) : string =
       let (s1, _) = step s0 (OSetChunk (n_of_str chunk)) in
       let fuel = nat_of_int (String.length datahex / 2 + 10) in
       let has c = String.contains flags c in
-      let maxd = max_dimacs ty in
       (match parser with
        | "cnf" | "wcnf" | "gcnf" ->
            let k = (match parser with "cnf" -> KCnf | "wcnf" -> KWcnf | _ -> KGcnf) in
+           let maxd = max_dimacs ty in
            let r = crun (parse_dimacs fuel k maxd (has 'h') lrs_init) s1 in
            of_cres r (fun (((hdr, items), fin), _) s ->
              let hitem = (match hdr with
@@ -57,11 +103,25 @@ let run (toks : string list) : string =
                | KGcnf -> "{" ^ str_of_zz p ^ "}" ^ lits ls) items in
              finish (hitem @ citems) (show_final fin) s)
        | "log" ->
+           let maxd = max_dimacs ty in
            let r = crun (parse_log fuel maxd (has 'u') lrs_init) s1 in
            of_cres r (fun (res, _) s ->
              match res with
              | Ok (sat, a) ->
                  finish [Printf.sprintf "sat=%s a=%s" (match sat with Some true -> "T" | Some false -> "F" | None -> "N") (lits a)] "ok" s
              | Err e -> finish [] (show_perr e) s)
+       | "aag" | "aig" ->
+           let binary = (parser = "aig") in
+           let maxc = max_code ty in
+           let r = crun ((if binary then parse_aig else parse_aag) fuel maxc lrs_init) s1 in
+           of_cres r (fun (res, _) s ->
+             let ((hdr, items), fin) = res in
+             let hitem = (match hdr with Some h -> [show_aheader h] | None -> []) in
+             if has 'w' then
+               (* Parser::parse: the whole value or the error *)
+               (match whole_file res with
+                | Ok a -> finish (hitem @ [show_aig binary a]) "ok" s
+                | Err e -> finish hitem (show_perr e) s)
+             else finish (hitem @ List.map show_item items) (show_final fin) s)
        | _ -> failwith ("parser not modelled: " ^ parser))
   | _ -> failwith "pa: expected 8 fields"
